@@ -90,6 +90,12 @@ func specGraph(c *Case, obs []CallObs) (string, string) {
 	for i := range c.Calls {
 		k := &c.Calls[i]
 		if obs[i].K != "ok" {
+			// the converse of the cycle clause: the implementation says "has loop" about declared control
+			// edges / branch targets that contain no cycle (validateDAG accepts exactly the graphs with a
+			// topological order: theorems validateDAG_sound / _complete)
+			if k.Op == "compile" && obs[i].K == "err" && obs[i].Cls == "EDagLoop" && !hasCycle(nodes, ctrl) {
+				return "rejected:no-cycle", fmt.Sprintf("Compile at %d was rejected as a DAG with a loop although the declared control edges and branch targets have no cycle", i)
+			}
 			continue
 		}
 		switch k.Op {
@@ -395,6 +401,23 @@ func specWorkflow(c *Case, obs []CallObs) (string, string) {
 			}
 		case "compile":
 			if obs[i].K != "ok" {
+				// the converse of the cycle clause (see specGraph): "has loop" about declarations without a cycle
+				if obs[i].K == "err" && obs[i].Cls == "EDagLoop" && compiledAt < 0 {
+					var ctrl [][2]string
+					for _, in := range inputs {
+						if in.in != "nodirect" {
+							ctrl = append(ctrl, [2]string{in.from, in.to})
+						}
+					}
+					for _, b := range branches {
+						for _, e := range b.ends {
+							ctrl = append(ctrl, [2]string{b.from, e})
+						}
+					}
+					if !hasCycle(nodes, ctrl) {
+						return "rejected:no-cycle", fmt.Sprintf("Compile at %d was rejected as a DAG with a loop although the declared dependencies and branch targets have no cycle", i)
+					}
+				}
 				continue
 			}
 			bad := func(kind string, j int) (string, string) {
